@@ -39,6 +39,11 @@ theorem Conv.unique {α : Type} {g : Nat → Res α} {r r' : Res α} (h : Conv g
 theorem Conv.of_eq {α : Type} {g : Nat → Res α} {r : Res α} (h : ∀ f, g (f+1) = r) : Conv g r :=
   Conv.of_succ ⟨0, fun f _ => h f⟩
 
+theorem Conv.shift {α : Type} {g : Nat → Res α} {r : Res α} (h : Conv g r) (k : Nat) :
+    Conv (fun f => g (f+k)) r := by
+  obtain ⟨f0, h⟩ := h
+  exact ⟨f0, fun f hf => h (f+k) (by omega)⟩
+
 variable (cfg : Cfg)
 
 /-- what `parseExpression(p)` does after its primary: the operator loop, then the conditional at level 0 -/
